@@ -71,8 +71,9 @@ def run(ctx):
             for t in n.ast.targets:
                 if isinstance(t, ast.Attribute) and unparse(t.value) == copy_var and t.attr == '_attributes':
                     attr_stores.append((n, n.ast.value))
+    # every path to a return passes one of the stores (one store that dominates, or one per branch), and each of them is a fresh copy
     ok = len(attr_stores) >= 1 and all(_is_fresh_copy_of(v, attr_sources) for _, v in attr_stores) and \
-        all(all(g.dominates(n, r) for r in rets) for n, _ in attr_stores)
+        all(g.path_avoiding(g.entry, r, avoid=[n for n, _ in attr_stores]) is None for r in rets)
     res.check(ok, 'R-COPY.complete', f.fq, "attributes: the copy's _attributes is a fresh copy of the source's *current* attribute dict, on every path",
               fail_detail='; '.join(short(v) for _, v in attr_stores) or "no store to <copy>._attributes (constructor kwargs are the construction-time attributes)",
               key='R-COPY.complete|attributes')
